@@ -140,23 +140,47 @@ def read_out(path):
     return m, text, ('png', rows)
 
 
-def run_build(env, assign, state, res, lua_file=False):
+def run_build(env, assign, state, res, lua_file=False, relative=None):
+    """relative: None = absolute paths; 'cwd' = run from the scratch directory and name OUT and the sources by bare /
+    './'-prefixed file names; 'parent' = run from its parent and name them as dir/file."""
     from pico8 import tool
     res.evaluations += 1
     out, before = env.prepare_out(state)
-    args = ['build', out]
+    cwd0 = os.getcwd()
+    try:
+        return _run_build(env, assign, state, res, out, before, relative, tool)
+    finally:
+        os.chdir(cwd0)
+
+
+def _run_build(env, assign, state, res, out, before, relative, tool):
+    def spell(pth):
+        if relative == 'cwd':
+            return ('./' if len(pth) % 2 else '') + os.path.basename(pth)
+        if relative == 'parent':
+            return os.path.join(os.path.basename(env.d), 'sub', '..', os.path.basename(pth)) if len(pth) % 2 else \
+                os.path.join(os.path.basename(env.d), os.path.basename(pth))
+        return pth
+    if relative == 'cwd':
+        os.chdir(env.d)
+    elif relative == 'parent':
+        os.makedirs(os.path.join(env.d, 'sub'), exist_ok=True)
+        os.chdir(os.path.dirname(env.d))
+    args = ['build', spell(out)]
     for sec, ch in zip(SECTIONS, assign):
         if ch == 'p8':
-            args += ['--' + sec, env.src_p8]
+            args += ['--' + sec, spell(env.src_p8)]
         elif ch == 'png':
-            args += ['--' + sec, env.src_png]
+            args += ['--' + sec, spell(env.src_png)]
         elif ch == 'empty':
             args += ['--empty-' + sec]
         elif ch == 'luafile':
-            args += ['--lua', env.src_lua]
+            args += ['--lua', spell(env.src_lua)]
         elif ch == 'sparse':
-            args += ['--' + sec, env.src_sparse_b if sec == 'gfx' else env.src_sparse_a]
+            args += ['--' + sec, spell(env.src_sparse_b if sec == 'gfx' else env.src_sparse_a)]
     case = {'assign': list(assign), 'out': state}
+    if relative:
+        case['relative'] = relative
     if any(c != 'none' for c in assign):
         res.nontriv((tuple(assign), state))
     try:
@@ -279,7 +303,7 @@ def assignments(max_spec):
 def shards(tier, seed):
     n = 32 if tier == 'quick' else 128
     items = [('assign', tier, k, n) for k in range(n)]
-    items += [('luafile', tier), ('errors', tier), ('resave', tier), ('sparse', tier)]
+    items += [('luafile', tier), ('errors', tier), ('resave', tier), ('sparse', tier), ('relpaths', tier)]
     return items
 
 
@@ -303,6 +327,13 @@ def run_shard(item):
                 for other in itertools.product(['none', 'p8', 'empty'], repeat=2):
                     assign = ['luafile', other[0], 'none', other[1], 'none', 'none']
                     run_build(env, assign, state, res)
+        elif item[0] == 'relpaths':
+            for rel in ('cwd', 'parent'):
+                for state in OUT_STATES:
+                    for assign in (['none'] * 6, ['p8', 'none', 'png', 'none', 'empty', 'none'], ['luafile', 'png', 'none', 'p8', 'none', 'sparse'],
+                                   ['png', 'p8', 'png', 'p8', 'png', 'p8'], ['none', 'none', 'none', 'none', 'none', 'empty']):
+                        run_build(env, assign, state, res, relative=rel)
+            res.sample({'relpaths': 'build out.p8.png --gfx ./src1.p8 run from the directory; build dir/out.p8 --gfx dir/sub/../src1.p8 from its parent'})
         elif item[0] == 'sparse':
             for state in OUT_STATES:
                 for si, sec in enumerate(SECTIONS):
@@ -341,7 +372,7 @@ def replay(case):
     env = Env()
     try:
         if 'assign' in case:
-            run_build(env, case['assign'], case['out'], res)
+            run_build(env, case['assign'], case['out'], res, relative=case.get('relative'))
         else:
             run_error(env, case['section'], case['error'], case['out'], res)
     finally:
